@@ -113,6 +113,11 @@ SEEDS = {
     "C16k": ("C16", "_cmd_genemetrics drops low-coverage bins itself before do_genemetrics when --drop-low-coverage is given", "`genemetrics --drop-low-coverage` and a gene with a null-coverage bin", "caught", None),
     "C17k": ("C17", "_cmd_segmetrics treats --alpha above 0.5 as a confidence level (1 - alpha)", "`segmetrics --pi/--ci --alpha 0.6..1`", "caught", None),
     "C20k": ("C20", "verify_sample_sex (cmdutil) drops the stated sex when the sex cannot be guessed", "`export bed --show variant` / `export vcf` with -x female on segments with Y rows and no non-PAR X rows", "missed", "see C01k"),
+    "C02l": ("C02", "csvstring (the type of call -t/--thresholds) tokenises with a regex that knows no exponent", "`call -t=...` with a threshold spelled in scientific notation (5e-05)", "caught", None),
+    "C04l": ("C04", "_cmd_fix switches the edge and rmask corrections off when the antitarget file is empty", "`fix` with a header-only antitarget coverage file and edge correction left on", "caught", None),
+    "C09l": ("C09", "_cmd_coverage passes min_mapq - 1 to do_coverage in pileup mode", "`coverage -q N` (N >= 1, no --count) and a read with MAPQ N-1", "caught", None),
+    "C13l": ("C13", "_cmd_access forwards -s only when it is truthy (0 falls back to do_access's default 5000)", "`access -s 0` on a FASTA with gaps shorter than 5000", "caught", None),
+    "C15l": ("C15", "_cmd_call no longer passes diploid_parx_genome to center_all", "`call --center EST --diploid-parx-genome G` on a table with PAR-X bins", "missed", "C15's centring cases now also go through `call --center ... -m none` (command-line tier)"),
 }
 
 
